@@ -127,6 +127,18 @@ def judge_result(out, P, tr, cfg, nit0, n0, where, tags):
     return key, tuple(limits)
 
 
+class SharedCriterion:
+    """A callable stop criterion the user keeps and passes to several runs (e.g. a schedule); counts its invocations."""
+
+    def __init__(self, value):
+        self.value = value
+        self.calls = 0
+
+    def __call__(self):
+        self.calls += 1
+        return self.value
+
+
 def reference_optimum(P):
     from scipy.optimize import minimize
 
@@ -158,7 +170,16 @@ def run(spec):
         cfg["ftarget"] = {"below": fstar - 1.0 - abs(fstar), "reachable": fstar + 0.3 * (f0 - fstar) + 1e-12, "above": f0 + 1.0}[kind]
     tags = dict(family=P.spec["family"])
     keys = set()
-    tr = probes.run_min(P, cfg)
+    hooks = {}
+    shared_g = SharedCriterion(cfg["gtol"]) if cfg.get("gtol_callable") else None
+    shared_t = SharedCriterion(cfg.get("ftarget")) if (cfg.get("ftarget_callable") and cfg.get("ftarget") is not None) else None
+    if shared_g is not None:
+        hooks["gtol_obj"] = shared_g
+    if shared_t is not None:
+        hooks["ftarget_obj"] = shared_t
+    tr = probes.run_min(P, cfg, hooks=hooks)
+    tr.gtol_calls = shared_g.calls if shared_g is not None else 0
+    tr.ftarget_calls = shared_t.calls if shared_t is not None else 0
     tr.start_fun = f0
     res = judge_result(out, P, tr, cfg, None, 1, f"{P.spec['family']} n={P.n} first run", dict(tags, restart=False))
     if res:
@@ -178,7 +199,19 @@ def run(spec):
             c2["ftarget"] = float(ck.fun) + 1.0
         nit0, n0 = int(ck.nit), int(ck.nfev)
         ck_msg = ck.message
-        tr2 = probes.run_min(P, c2, checkpoint=ck, x0=np.array(ck.x, dtype=float, copy=True))
+        # the user passes the SAME callable objects again, now returning this restart's values
+        if shared_g is not None:
+            c2["gtol"] = float(cfg["gtol"]) * (0.5 if k % 2 == 0 else 2.0)
+            shared_g.value, shared_g.calls = c2["gtol"], 0
+        if shared_t is not None:
+            if c2.get("ftarget") is None:
+                c2["ftarget"] = float(ck.fun) - 1.0 - abs(float(ck.fun))
+            shared_t.value, shared_t.calls = c2["ftarget"], 0
+        elif c2.get("ftarget_callable") and c2.get("ftarget") is not None:
+            c2["ftarget_callable"] = False  # a target introduced at the restart is passed as a float
+        tr2 = probes.run_min(P, c2, checkpoint=ck, x0=np.array(ck.x, dtype=float, copy=True), hooks=hooks)
+        tr2.gtol_calls = shared_g.calls if shared_g is not None else 0
+        tr2.ftarget_calls = shared_t.calls if shared_t is not None else 0
         tr2.start_fun = float(ck.fun)
         out.count("restart_results_judged")
         if c2["maxiter"] < nit0:
